@@ -141,6 +141,10 @@ theorem iso11_onCurve (p : Jac Fq)
 
 /-! ## G2: `iso3`, from `E2' : y² = x³ + 240u·x + 1012(1+u)` to `E2 : y² = x³ + 4(1+u)` over `Fq2` -/
 
+/-- the curve constants: `A' = 240u`, `B' = 1012(1+u)`, `b = 4(1+u)` -/
+theorem g2_consts : g2EllpA = ⟨0, Zp.ofNat 240⟩ ∧ g2EllpB = ⟨Zp.ofNat 1012, Zp.ofNat 1012⟩ ∧
+    g2Codec.b = ⟨Zp.ofNat 4, Zp.ofNat 4⟩ := by decide +kernel
+
 section g2
 variable [fld : Field Fq2] [LawfulFieldOps Fq2]
 
